@@ -97,6 +97,7 @@ pub fn items(quick: bool) -> Vec<Box<dyn Fn() -> Vec<Item> + Send + Sync>> {
         ("r. q(X) :- s(X), r != X, X = r.", "q(X) :- s(X), X = r, r != X. r."),
         // a symbolic constant named like a predicate of arity >= 1 (under strong equivalence: like its h-/t-copy),
         // with constants that sort between the name and name__s
+        ("q(v2). q(v10). q(v9). r :- v10 < v2.", "q(v9). q(v10). q(v2). r."),
         ("q(hq). q(hq0). r :- hq < hq0.", "q(hq0). q(hq). r."),
         ("q(tq). q(tq_). q(tqZ). s(X) :- q(X), X != tq.", "q(tqZ). q(tq_). q(tq). s(X) :- q(X), tq != X."),
         ("q(X,Y) :- s(X), s(Y). s(hq). s(hq1).", "s(hq1). s(hq). q(X,Y) :- s(Y), s(X)."),
